@@ -17,7 +17,7 @@
 (* is written for the offending file and for the files after it, the exit  *)
 (* status is non-zero and a diagnostic was printed.                        *)
 (***************************************************************************)
-EXTENDS Integers, Sequences, FiniteSets, TLC
+EXTENDS Integers, Sequences, FiniteSets
 
 CONSTANTS Args       \* sequence of [name |-> string, foi |-> BOOLEAN]
 
